@@ -18,6 +18,8 @@ def get_surfaces(input, lim=None):
         name = int(name)
         t = t.strip().lower()
         params = list(map(mcnp_float, params.split()))
+        if name in d:
+            raise ValueError(f'surface {name} is defined twice')
         d[name] = (bc, tr, t, params)
         n += 1
         if lim and n > lim:
